@@ -113,9 +113,15 @@ def summarise_return(I, env, v):
             if (v.lo or 0) == 0 and not v.pre:
                 first = first | frozenset()
         nonascii = allcls - S.ASCII
+        cats = set()
+        import unicodedata as _u
+        for b in nonascii:
+            ch = B.sample[b]
+            cats.add('decimal digits' if _u.category(ch) == 'Nd' else 'other digits' if ch.isdigit() else 'letters' if ch.isalpha()
+                     else 'whitespace' if ch.isspace() else 'other characters')
         return {'kind': 'str', 'lo': v.lo or 0, 'hi': v.hi, 'ws_first': bool(first & S.WS), 'ws_last': bool(last & S.WS),
                 'ws_first_desc': B.describe(first & S.WS)[:60] if first & S.WS else '', 'ws_last_desc': B.describe(last & S.WS)[:60] if last & S.WS else '',
-                'nonascii': sorted(nonascii), 'nonascii_desc': B.describe(nonascii)[:80] if nonascii else '',
+                'nonascii': sorted(nonascii), 'nonascii_cats': sorted(cats), 'nonascii_chars': ''.join(sorted(B.sample[b] for b in nonascii))[:300], 'nonascii_desc': B.describe(nonascii)[:80] if nonascii else '',
                 'imprecise': bool(v.imprecise), 'desc': S.describe(env, v)[:160]}
     if isinstance(v, Maybe):
         return {'kind': 'union', 'alts': [summarise_return(I, env, a) for a in v.alts], 'desc': repr(v)[:120]}
